@@ -158,9 +158,13 @@ impl ZonedDateTime {
         // 2. Let isoDateTime be GetISODateTimeFor(timeZone, epochNanoseconds).
         let iso_datetime = self.tz.get_iso_datetime_for(&self.instant, provider)?;
         // 3. Let addedDate be ? CalendarDateAdd(calendar, isoDateTime.[[ISODate]], duration.[[Date]], overflow).
-        let added_date = self
-            .calendar()
-            .date_add(&iso_datetime.date, duration, overflow)?;
+        // NOTE: Only the date part is added here: `date_add` balances a time part into
+        // days, and the time part is added on the exact time line in step 7.
+        let added_date = self.calendar().date_add(
+            &iso_datetime.date,
+            &Duration::from(*duration.date()),
+            overflow,
+        )?;
         // 4. Let intermediateDateTime be CombineISODateAndTimeRecord(addedDate, isoDateTime.[[Time]]).
         let intermediate = IsoDateTime::new_unchecked(added_date.iso, iso_datetime.time);
         // 5. If ISODateTimeWithinLimits(intermediateDateTime) is false, throw a RangeError exception.
